@@ -22,7 +22,8 @@ import time
 from fractions import Fraction
 
 sys.path.insert(0, os.path.dirname(os.path.abspath(__file__)))
-from common import *  # noqa
+from common import *
+from common import scale as scale_  # noqa
 import numpy as np
 import geodepy.angles as A
 
@@ -155,6 +156,15 @@ def gen_values(rng, n, stats):
     for v in fixed:
         vals.append(v)
         stats.add('values:fixed')
+    # literal-directed values: constants of hand-modelled functions whose text changed (harness/drift.py), read as
+    # degrees, as arc-seconds, as minutes and as an HP-digit position, each a hair below / at / above
+    for L in drift_literals():  # noqa: F405
+        for base in (L, L / 60.0, L / 3600.0, L + 0.3, 1.0 / L if L else 0.0):
+            if abs(base) <= 1e6:
+                for v in (base, math.nextafter(base, -math.inf), math.nextafter(base, math.inf), base - 1e-9 / 3600,
+                          base + 1e-9 / 3600, -base, base + 1e-12, base - 1e-12):
+                    vals.append(v)
+                    stats.add('values:drift-literal')
     while len(vals) < n:
         mode = rng.random()
         sgn = rng.choice([1, 1, -1])
@@ -404,7 +414,7 @@ def main():
     t0 = time.time()
     rng = random.Random(f'{seed()}:corr_angles')
     thorough = tier() == 'thorough'
-    scale = 20 if thorough else 5
+    scale = 20 if thorough else 5 * min(scale_(), 3)
     stats = Stats()
     reqs, impl, what = [], [], []
 
